@@ -36,6 +36,7 @@ impl Default for C19 {
             "emissions_paid_permissionless",
             "emissions_conservation_checked",
             "emissions_credit_bounded_by_history",
+            "fees_destination_update_judged",
         ]);
         C19 { cov, touched: Default::default() }
     }
@@ -156,6 +157,27 @@ impl Monitor for C19 {
             let b = states[i + 1];
             let fee_state = model::fee_state_of(a);
             self.judge_credit_history(ix, a, b, s, out);
+            // "the destination fixed by the group admin": whoever changes a bank's stored fees
+            // destination must be the admin of the group that bank belongs to, and the new
+            // destination must be a token account of the bank's mint
+            if ix.tag == "update_fees_destination" {
+                if let Some(bk) = ix.accounts.get(1).map(|m| m.pubkey) {
+                    if let (Some(b0), Some(b1)) = (model::bank_of(a, &bk), model::bank_of(b, &bk)) {
+                        let signer = ix.accounts.get(2).map(|m| m.pubkey).unwrap_or_default();
+                        let admin = model::group_of(a, &b0.group).map(|g| g.admin);
+                        self.cov.probe("fees_destination_update_judged");
+                        if b1.fees_destination_account != b0.fees_destination_account && admin != Some(signer) {
+                            out.push(viol("C19", "fees_destination_changed_by_other_than_the_banks_group_admin", ix.tag,
+                                format!("bank {bk} of group {}: signer {signer}, new destination {}", b0.group, b1.fees_destination_account), idx));
+                        }
+                        if let Some(t) = b.get(&b1.fees_destination_account) {
+                            if t.data.len() >= 165 && fixtures::token_mint(&t.data) != b1.mint {
+                                out.push(viol("C19", "fees_destination_of_another_mint", ix.tag, format!("bank {bk}"), idx));
+                            }
+                        }
+                    }
+                }
+            }
             for (bk, pre) in model::all_banks(a) {
                 let post = model::bank_of(b, &bk);
                 let liq0 = model::vault_amount(a, &pre.liquidity_vault);
